@@ -302,7 +302,7 @@ func (i *interpreter) visitInstr(fr *frame, instr ssa.Instruction) continuation 
 		if p == nil {
 			panic(i.nilDeref())
 		}
-		i.noteStore(p)
+		i.noteStoreVal(p, fr.get(instr.Val))
 		store(mustDeref(instr.Addr.Type()), p, fr.get(instr.Val))
 
 	case *ssa.If:
@@ -731,16 +731,26 @@ func (i *interpreter) callBuiltin(caller *frame, callpos token.Pos, fn *ssa.Buil
 		if len(args) == 1 {
 			return args[0]
 		}
+		var cp []value
 		switch s := args[1].(type) {
 		case string, *symStr:
-			return append(args[0].([]value), strBytes(s)...)
+			cp = strBytes(s)
+		default:
+			src := args[1].([]value)
+			cp = make([]value, len(src))
+			for k := range src {
+				cp[k] = copyVal(src[k])
+			}
 		}
-		src := args[1].([]value)
-		cp := make([]value, len(src))
-		for k := range src {
-			cp[k] = copyVal(src[k])
+		dst := args[0].([]value)
+		if i.watch != nil && len(dst)+len(cp) <= cap(dst) {
+			// in-place append: the cells between len and cap of the backing array are written
+			full := dst[:cap(dst)]
+			for k := range cp {
+				i.noteStoreVal(&full[len(dst)+k], cp[k])
+			}
 		}
-		return append(args[0].([]value), cp...)
+		return append(dst, cp...)
 
 	case "copy":
 		src := args[1]
@@ -760,7 +770,7 @@ func (i *interpreter) callBuiltin(caller *frame, callpos token.Pos, fn *ssa.Buil
 		}
 		if i.watch != nil {
 			for k := 0; k < n; k++ {
-				i.noteStore(&dst[k])
+				i.noteStoreVal(&dst[k], tmp[k])
 			}
 		}
 		copy(dst, tmp)
